@@ -116,6 +116,7 @@ struct PendingState {
 
 struct ActiveState {
     local_nonce: u32,
+    remote_nonce: u32,
     half_connection: half_connection::HalfConnection,
     timeout_time_ms: u64,
     disconnect_signal: Option<DisconnectMode>,
@@ -472,6 +473,7 @@ impl Client {
 
                     self.state = State::Active(ActiveState {
                         local_nonce: state.local_nonce,
+                        remote_nonce: frame.nonce,
                         half_connection,
                         timeout_time_ms: now_ms + self.config.endpoint_config.active_timeout_ms,
                         disconnect_signal: None,
@@ -484,7 +486,11 @@ impl Client {
                 // encountered when our initial ACK was dropped - all that matters is that the
                 // server receives an ACK.
 
-                if frame.nonce_ack == state.local_nonce {
+                // Only a copy of the SYN+ACK this connection was established with is acknowledged. A
+                // SYN+ACK carrying another nonce belongs to a new handshake (e.g. the server forgot
+                // this connection and then met a delayed duplicate of our SYN): acknowledging it
+                // would create a server-side connection whose sequence numbers we do not share.
+                if frame.nonce_ack == state.local_nonce && frame.nonce == state.remote_nonce {
                     let reply = frame::Frame::HandshakeAckFrame(frame::HandshakeAckFrame {
                         nonce_ack: frame.nonce,
                     });
